@@ -173,6 +173,11 @@ Inductive op :=
 Definition falsy_hash (h : option string) : bool :=
   match h with None => true | Some s => (s =? "")%string end.
 
+(* what happens to a slave through the hub: a forwarded PATCH /device that succeeded (its admin_password, or none), or a
+   rename of the slave (PATCH .../forward/device {"name": ...}, a provisioned rename, or a new name seen by poll/listen),
+   upon which the hub removes the slave and adds it again under the new name *)
+Inductive sop := SFwd (pw : option string) | SRename.
+
 Section Passwords.
   Variable sha256hex : string -> string.
 
@@ -218,10 +223,14 @@ Section Passwords.
   (* the hub's credential for one slave (slaves/devices.py): Slave._admin_password_hash starts as sha256(admin_password
      given when the slave is added); Slave.intercept_response replaces it after every SUCCESSFUL forwarded
      PATCH /device whose body has an admin_password that `is not None` - the empty password included *)
-  Definition track (h : string) (body_pw : option string) : string :=
-    match body_pw with Some p => sha256hex p | None => h end.
+  Definition track (h : string) (o : sop) : string :=
+    match o with
+    | SFwd (Some p) => sha256hex p
+    | SFwd None => h
+    | SRename => h     (* _handle_rename: remove, then add(..., admin_password_hash=h): Slave.__init__ takes the hash as is *)
+    end.
 
-  Definition hub_slave_hash (pw0 : string) (sops : list (option string)) : string :=
+  Definition hub_slave_hash (pw0 : string) (sops : list sop) : string :=
     fold_left track sops (sha256hex pw0).
 End Passwords.
 
